@@ -48,9 +48,29 @@ func NewEncoder(w io.Writer, np map[string]string) *Encoder {
 	return encoder
 }
 
+// stickyWriter remembers the first failure of the destination writer (an error, or a short
+// count), so that a write whose result is not checked at its call site still fails the
+// encode call
+type stickyWriter struct {
+	w   io.Writer
+	err error
+}
+
+func (s *stickyWriter) Write(p []byte) (int, error) {
+	if s.err != nil {
+		return 0, s.err
+	}
+	n, err := s.w.Write(p)
+	if err == nil && n < len(p) {
+		err = io.ErrShortWrite
+	}
+	s.err = err
+	return n, err
+}
+
 //Reset reset
 func (e *Encoder) Reset(w io.Writer) {
-	e.writer = w
+	e.writer = &stickyWriter{w: w}
 	e.clsDefList = make([]ClassDef, 0, 11)
 	e.refMap = make(map[unsafe.Pointer]_refElem, 11)
 }
@@ -68,6 +88,9 @@ func (e *Encoder) RegisterNameMap(mp map[string]string) {
 //WriteObject write object
 func (e *Encoder) WriteObject(data interface{}) error {
 	_, err := e.WriteData(data)
+	if sw, ok := e.writer.(*stickyWriter); ok && err == nil {
+		err = sw.err
+	}
 	return err
 }
 
